@@ -85,7 +85,40 @@ def write_dataset(ds, base_dir, order=None, strategy="in memory", key="k"):
     acc = ShardedFileAccessor(base_dir, strategy=strategy)
     acc.info = json.loads(json.dumps(info))
     with contextlib.redirect_stdout(io.StringIO()):
-        for cell in (order if order is not None else ds["order"]):
+        # the caller's buffer is REUSED after every store (a writer that fills one scratch buffer per chunk): what must
+        # be kept is the content at the time of the call, whatever bytes-like type carries it
+        for n, cell in enumerate(order if order is not None else ds["order"]):
+            pay = ds["payload"][cell]
+            if n % 3 == 0:
+                acc.store_chunk(pay, key, coords_of(ds, cell))
+            else:
+                scratch = bytearray(pay)
+                acc.store_chunk(scratch if n % 3 == 1 else memoryview(scratch), key, coords_of(ds, cell))
+                for i in range(len(scratch)):      # in place, no resize: the caller fills its buffer with the next chunk
+                    scratch[i] ^= 0xFF
+        acc.close()
+    return acc
+
+
+def write_two_scales(ds1, ds2, base_dir, strategy="in memory", interleave=True):
+    """Two scales ("k", "k2") stored through ONE accessor and closed ONCE (what convert-chunks does with a
+    multi-scale sharded destination): per-scale write buffers must not meet."""
+    from neuroglancer_scripts.sharded_file_accessor import ShardedFileAccessor
+    i1, i2 = make_info(ds1, "k"), make_info(ds2, "k2")
+    info = dict(i1, scales=i1["scales"] + i2["scales"])
+    os.makedirs(base_dir, exist_ok=True)
+    with open(os.path.join(base_dir, "info"), "w") as f:
+        json.dump(info, f)
+    import contextlib
+    import io
+    acc = ShardedFileAccessor(base_dir, strategy=strategy)
+    acc.info = json.loads(json.dumps(info))
+    todo = [("k", ds1, c) for c in ds1["order"]] + [("k2", ds2, c) for c in ds2["order"]]
+    if interleave:
+        a, b = todo[:len(ds1["order"])], todo[len(ds1["order"]):]
+        todo = [x for pair in zip(a, b) for x in pair] + a[len(b):] + b[len(a):]
+    with contextlib.redirect_stdout(io.StringIO()):
+        for key, ds, cell in todo:
             acc.store_chunk(ds["payload"][cell], key, coords_of(ds, cell))
         acc.close()
     return acc
